@@ -56,9 +56,13 @@ def extreme_runs(chk, stats):
     rng = chk.rng
     n = 0
     kinds_all = ["xgb", "rf", "bestbatch", "pso", "cors", "gp"]
-    for li in range(4 if chk.tier == "quick" else 30):
-        kinds = [("halton", 3), (kinds_all[li % len(kinds_all)], 2), (rng.choice(kinds_all[:5]), 2)]
-        vals = [1.0, 1e39, -1e39, 3.5e38, 2.5, 1e300, 0.25, -3.5e38]
+    for li in range(6 if chk.tier == "quick" else 36):
+        kinds = [("halton", 3), (kinds_all[(li // 3) % len(kinds_all)], 2), (rng.choice(kinds_all[:5]), 2)]
+        mode = li % 3          # which side of the float32 range the history exceeds: only below, only above, both
+        vals = {0: [1.0, -1e39, float("-inf"), 2.5, -3.5e38, 0.25, -1e300],
+                1: [1.0, 1e39, 3.5e38, 2.5, 1e300, 0.25, float("inf")],
+                2: [1.0, 1e39, -1e39, 3.5e38, 2.5, 1e300, 0.25, -3.5e38]}[mode]
+        stats[f"extreme:mode{mode}"] += 1
         rng.shuffle(vals)
         samplers = [rl.make_sampler(k, bs, 5) for k, bs in kinds]
         with contextlib.redirect_stdout(io.StringIO()):
